@@ -190,9 +190,8 @@ Definition tc_bin (o : binop) (a b : vty) : vty * list diag :=
       (match a with Some (TList t) => Some t | Some TText => Some TChar | _ => b end,
        unless (vseq a) DTypeOp ++ unless (vindex b) DTypeOp)
   | BVerkettet =>
-      (* typechecker.go BIN_CONCAT.  NOT mirrored: two operands without a type build a list "of nothing"
-         (GetListElementType(void) = void on both sides) that `die Länge von` etc. accept; the model has the
-         repaired behaviour (see the C04 report), the check reports such programs through the specification oracle *)
+      (* typechecker.go BIN_CONCAT; since d293d7b operands without a type are rejected in the list form too
+         (before, two of them built a list "of nothing" that `die Länge von` etc. accepted) *)
       if negb (vlist a) && negb (vlist b) && (vty_eqb a (Some TText) || vty_eqb b (Some TText))
       then (Some TText, validate2 vtextish a b)
       else (match velem a with Some t => Some (TList t) | None => None end,
@@ -249,7 +248,7 @@ Fixpoint tc_expr (F : fenv) (G : env) (e : expr) : vty * list diag :=
       (match a with Some (TList _) | Some TText => a | _ => tj end,
        d1 ++ d2 ++ d3 ++ unless (vseq a) DTypeOp ++ unless (vindex ti) DTypeOp ++ unless (vindex tj) DTypeOp)
   | EList e a =>
-      (* VisitListLit; a first element without a type: see BVerkettet *)
+      (* VisitListLit; since d293d7b a first element without a type is an error (TYP_BAD_LIST_LITERAL) *)
       let (t, d) := tc_expr F G e in
       match t with
       | Some t0 => (Some (TList t0), d ++ when (is_listb t0) DTypeOp ++ tc_args F G a (repeat (t0, false) (alen a)))
@@ -504,7 +503,8 @@ Definition check_with (Q : quirks) (p : prog) : list diag :=
 
 (* the frontend as it is in /repo now: the four unsoundness defects were repaired by ec4b99d (gleich/ungleich), 328cc02
    (return), 4309fac (VisitIdent uses the resolver's binding; loop bounds resolved outside the body), 581329c (private
-   fields); the field-name lookup of assigneable() (a false rejection) is still there *)
+   fields), d293d7b (lists of elements without a type); the field-name lookup of assigneable() (a false rejection,
+   not a C04 matter) is still there and mirrored by q_field_name_lookup *)
 Definition current : quirks :=
   {| q_void_eq := false; q_void_ret := false; q_tc_by_name := false; q_field_unimported := false; q_field_name_lookup := true |}.
 Definition check (p : prog) : list diag := check_with current p.
